@@ -1,7 +1,15 @@
-(* Property C12 (WebSocket message round trip), statements proved on the model of nbhttp/websocket/conn.go. *)
+(* Property C12 (WebSocket message round trip), statements proved on the model of nbhttp/websocket/conn.go
+   (WsModel.v: writeFrame / WriteMessage on one side, nextFrame / Parse / handleWsMessage on the other).
+   Proved: the frame codec for all lengths below 2^63, and the message round trip for one message fed to an idle
+   receiver in one piece - any length including 0, any MaxWebsocketFramePayloadSize > 0 (any fragmentation), both
+   roles, any mask keys; with permessage-deflate under the single law "reading the decompressor to its end gives
+   back the message".
+   NOT a theorem (decided on every run by the differential run of the extracted model against real Conn pairs and
+   by the round-trip oracle): several messages with interleaved control frames, arbitrary segmentation of the wire
+   into Parse calls, a message length limit > 0 on the receiver; DEFLATE itself; the unrolled maskXOR. *)
 From Coq Require Import List NArith Bool Lia.
 Import ListNotations.
-Require Import WsModel WsBasics WsFrame.
+Require Import WsModel WsBasics WsFrame WsLimits WsRoundtrip WsRoundtrip2.
 Open Scope N_scope.
 
 (* what writeFrame encodes, nextFrame's two halves (peek, body_of) decode: every payload length below 2^63,
@@ -10,9 +18,50 @@ Theorem c12_frame_roundtrip f rest :
   wf_frame f -> decode_frame (encode_frame f ++ rest) = Got f false false rest.
 Proof. exact (frame_roundtrip f rest). Qed.
 
+(* a text (valid UTF-8) or binary message written by WriteMessage, uncompressed, is delivered exactly once, with
+   its type and payload, by Parse on an idle connection, which is idle again afterwards *)
+Theorem c12_message_roundtrip cfgS stS oS cfgR stR oR mt data :
+  mt = 2 \/ (mt = 1 /\ utf8_valid data = true) ->
+  closed stS = false -> cclosed stS = false -> write_compress cfgS = false -> keys_ok oS -> len data < LIM62 ->
+  msg_limit cfgR = 0 -> idle stR ->
+  exists oS' evs st',
+    write_message cfgS stS oS mt data = (oS', evs, None) /\
+    parse_call cfgR stR (wire_of_events evs) oR = (st', oR, [EvMsg mt data], None) /\ idle st'.
+Proof. exact (roundtrip_plain cfgS stS oS cfgR stR oR mt data). Qed.
+
+(* the same with permessage-deflate: z is the compressor's output (oracle), script what the decompressor's Reads
+   returned on the receiving side (oracle) *)
+Theorem c12_message_roundtrip_compressed cfgS stS oS cfgR stR oR mt data z dr script ir :
+  mt = 2 \/ (mt = 1 /\ utf8_valid data = true) ->
+  closed stS = false -> cclosed stS = false -> write_compress cfgS = true -> keys_ok oS ->
+  o_defl oS = Some z :: dr -> z <> [] -> len z < LIM62 ->
+  msg_limit cfgR = 0 -> enable_compression cfgR = true -> idle stR ->
+  o_infl oR = script :: ir -> read_all 0 [] script = ROk data ->
+  exists oS' evs st',
+    write_message cfgS stS oS mt data = (oS', evs, None) /\
+    parse_call cfgR stR (wire_of_events evs) oR = (st', mko (o_keys oR) ir (o_defl oR), [EvMsg mt data], None) /\ idle st'.
+Proof. exact (roundtrip_compressed cfgS stS oS cfgR stR oR mt data z dr script ir). Qed.
+
+(* non-vacuity *)
 Example c12_frame_example :
   wf_frame (mkf true false 1 true [1; 2; 3; 4] [72; 105]) /\
   encode_frame (mkf true false 1 true [1; 2; 3; 4] [72; 105]) = [129; 130; 1; 2; 3; 4; 73; 107].
 Proof. split; [repeat split; cbn; try lia; discriminate|reflexivity]. Qed.
 
+(* a client sends "Hello" with a frame limit of 2: three masked frames; the server delivers "Hello" *)
+Example c12_message_example :
+  let cfgS := mkcfg true 0 0 false false 2 in
+  let cfgR := mkcfg false 0 0 false false 32768 in
+  let oS := mko [[1; 2; 3; 4]; [5; 6; 7; 8]; [9; 10; 11; 12]] [] [] in
+  let r := write_message cfgS init_state oS 1 [72; 101; 108; 108; 111] in
+  length (snd (fst r)) = 3%nat /\
+  fst (parse_call cfgR init_state (wire_of_events (snd (fst r))) (mko [] [] [])) =
+    (init_state, mko [] [] [], [EvMsg 1 [72; 101; 108; 108; 111]]).
+Proof. vm_compute. split; reflexivity. Qed.
+
+Example c12_idle_init : idle init_state /\ keys_ok (mko [[1; 2; 3; 4]] [] []).
+Proof. split; [repeat split|repeat constructor]. Qed.
+
 Print Assumptions c12_frame_roundtrip.
+Print Assumptions c12_message_roundtrip.
+Print Assumptions c12_message_roundtrip_compressed.
